@@ -17,6 +17,8 @@ PRE = '''#define RLBOX_SINGLE_THREADED_INVOCATIONS
 #include <cstdio>
 #include <cstring>
 #include <memory>
+#include <utility>
+#include <type_traits>
 #include <stdexcept>
 using namespace rlbox;
 typedef __int128 mathint;
@@ -160,7 +162,41 @@ def replay_ptr_arith(spec, vals, obligation, desc):
     return body, judge
 
 
-KINDS = {'convert': replay_convert, 'ptr_arith': replay_ptr_arith}
+def _idx_setup(kind, idx, nv, var='i'):
+    if kind == 'plain':
+        return '  %s %s = %s; mathint I = (mathint)%s;\n' % (idx, var, _lit(nv, idx), var)
+    if kind == 'tainted':
+        return '  tainted<%s, vsbx> %s = %s; mathint I = (mathint)%s;\n' % (idx, var, _lit(nv, idx), _lit(nv, idx))
+    return ('  alignas(8) static unsigned char cell_%s[8]; auto guest_%s = %s; std::memcpy(cell_%s, &guest_%s, sizeof(guest_%s));\n'
+            '  auto& %s = *reinterpret_cast<tainted_volatile<%s, vsbx>*>(cell_%s); mathint I = (mathint)guest_%s;\n'
+            % (var, var, _lit(nv, 'long long'), var, var, var, var, idx, var, var)).replace('auto guest_%s = ' % var, 'decltype(std::declval<tainted_volatile<%s, vsbx>&>().data) guest_%s = ' % (idx, var)).replace('decltype(', 'std::remove_cv_t<decltype(').replace('.data) guest_', '.data)> guest_')
+
+
+def replay_arr_index(spec, vals, obligation, desc):
+    nv = _int(vals, 'in_i')
+    body = PRE + 'int main(){\n  static %s<%s, vsbx> a;\n' % (spec['wrap'], spec['arr'])
+    body += _idx_setup(spec['rhs_kind'], spec['idx'], nv)
+    body += ('  int aborted = 0; uintptr_t result = 0;\n'
+             '  try { auto& r = a[i]; result = reinterpret_cast<uintptr_t>(std::addressof(r)); } catch (const std::runtime_error&) { aborted = 1; }\n'
+             '  mathint base = (mathint)reinterpret_cast<uintptr_t>(std::addressof(a));\n'
+             '  std::printf("aborted=%%d\\n", aborted); pr("index", I); pr("offset", (mathint)result - base);\n'
+             '  std::printf("in_range=%%d\\n", (int)(I >= 0 && I < %d));\n'
+             '  std::printf("element_ok=%%d\\n", (int)((mathint)result == base + I * %d));\n  return 0; }\n' % (spec['n0'], spec['esz']))
+
+    def judge(d):
+        cl = _clause(desc)
+        returned = d.get('aborted') == '0'
+        if 'precondition' in obligation and cl is None:
+            return d.get('aborted') == '1' and d.get('in_range') == '1'
+        if cl == 'in_range':
+            return returned and d.get('in_range') == '0'
+        if cl == 'element':
+            return returned and d.get('element_ok') == '0'
+        return False
+    return body, judge
+
+
+KINDS = {'convert': replay_convert, 'ptr_arith': replay_ptr_arith, 'arr_index': replay_arr_index}
 
 
 def register(kind, fn):
